@@ -13,6 +13,7 @@ class LexerKit:
         self.prog = Program(self.mirfiles, mirdump.REPO)
         self.models = Models()
         strmodel.install(self.models)
+        strmodel.install_more(self.models)
         self.TK = self.prog.enums["TokenKind"][0]
         self.LK = self.prog.enums["LiteralKind"][0]
         self.f_new = self.prog.methods.get(("Cursor", None, "new"))
